@@ -75,6 +75,16 @@ fn fvals<const B: Word>(p_max: u32, e_max: i64, prod_p: &[usize]) -> Vec<FV<B>> 
             push(mk_repr::<B>(s, *e), prec, format!("from_repr({}e{}, precision {})", s, e, prec), &mut out);
         }
     }
+    // the same values written with trailing zero digits: Repr::new has to normalise s * B^v to
+    // (s, v) - a representation that keeps a factor of the base would be == -different from its
+    // own value while comparing Equal
+    for v in 1u32..=24 {
+        for s0 in [1i64, -1, 7] {
+            let s = BigInt::from(s0) * num_traits::pow(BigInt::from(B), v as usize);
+            let prec = digits_b(&s, B as u32);
+            push(Repr::<B>::new(ref_to_i(&s), -3), prec, format!("Repr::new({} * {}^{}, -3) (unnormalised spelling)", s0, B, v), &mut out);
+        }
+    }
     push(Repr::<B>::infinity(), 0, "+inf".into(), &mut out);
     push(Repr::<B>::neg_infinity(), 0, "-inf".into(), &mut out);
     push(Repr::<B>::infinity(), 5, "+inf (precision 5)".into(), &mut out);
